@@ -924,3 +924,55 @@ def sym_int(x=0, *args):
             raise TypeError("only 0-dimensional arrays can be converted to Python scalars")
         return sym_int(x.item())
     return int(x, *args)
+
+
+class SymSet(object):
+    """Shadow of builtin set() inside verif modules: a linear-search set, so
+    that membership is decided by == (which forks) and never by hash (symbolic
+    values hash to a constant and would otherwise miss equal concrete keys)."""
+    def __init__(self, iterable=()):
+        self._items = []
+        for x in iterable:
+            self.add(x)
+
+    def _has(self, x):
+        for y in self._items:
+            r = (y == x)
+            if r is NotImplemented:
+                continue
+            if bool(r):
+                return True
+        return False
+
+    def add(self, x):
+        if not self._has(x):
+            self._items.append(x)
+
+    def __contains__(self, x):
+        return self._has(x)
+
+    def __iter__(self):
+        return iter(list(self._items))
+
+    def __len__(self):
+        return len(self._items)
+
+    def __and__(self, other):
+        return SymSet([x for x in self._items if x in other])
+    __rand__ = __and__
+
+    def __or__(self, other):
+        return SymSet(list(self._items) + list(other))
+
+    def __sub__(self, other):
+        return SymSet([x for x in self._items if x not in other])
+
+    def __eq__(self, other):
+        other = list(other)
+        return len(other) == len(self._items) and all(x in self for x in other)
+
+    def __hash__(self):
+        return 11
+
+    def __repr__(self):
+        return "SymSet(%r)" % (self._items,)
